@@ -150,7 +150,7 @@ def families(eng, tier, seed):
         for ename, efn in c03.edits():
             if ename in ("nested-struct-other-path", "boxed-self-vs-plain"): continue
             for order in (0, 1): fams.append(make_family("edit-%s-o%d-%s" % (ename, order, ho), c03.edit_family(ename, efn, order), ho))
-        for n, mk in digit_families() + c03.generic_families() + c03.recursive_families(): fams.append(make_family("%s-%s" % (n, ho), mk, ho))
+        for n, mk in digit_families() + c03.generic_families() + c03.recursive_families() + c03.release_families(): fams.append(make_family("%s-%s" % (n, ho), mk, ho))
         if tier == "thorough":
             E = [e for e in c03.edits() if e[0] not in ("nested-struct-other-path", "boxed-self-vs-plain")]
             # four members under one path: the subject, two different single edits of it, and a copy of the first edit (same group)
